@@ -407,6 +407,11 @@ func (persistComp) Gen(rng *rand.Rand, tier string) [][]string {
 			if rng.Intn(4) == 0 {
 				keys[j] = []byte{byte(j)}
 			}
+			if j > 0 && rng.Intn(4) == 0 {
+				// a key that EXTENDS another key of the history (the two are neighbours in LevelDB's order and one is a prefix of
+				// the other): a removed or never written key must not be answered from its extensions, nor the reverse
+				keys[j] = append(append([]byte{}, keys[rng.Intn(j)]...), byte(pick(rng, 0, 0, 1, 0xff, j)))
+			}
 			ks[j] = hx(keys[j])
 		}
 		h := []string{fmt.Sprintf("begin persist kind=%s shards=%d batch=%d delay=%d keys=%s", kind, shards, batch, delay, strings.Join(ks, ","))}
